@@ -8,6 +8,9 @@ SPEC = {
         {'pkg': 'commit/merkleroot/rmn', 'pkgname': 'rmn',
          'src': 'harness/commit/merkleroot/rmn/c06_test.go', 'test': 'TestVerif_C06',
          'sinks': {'C06_sched': 'c06_judge'}, 'n': {'quick': 1500, 'thorough': 15000}},
+        {'pkg': 'commit/merkleroot/rmn', 'pkgname': 'rmn',
+         'src': 'harness/commit/merkleroot/rmn/c06_test.go', 'test': 'TestVerif_C06_sweep',
+         'sinks': {'C06_sweep': 'c06_judge'}, 'n': {'quick': 1, 'thorough': 6}},
     ],
     'rule': 'one case = one scripted run of the real rmn.controller.ComputeReportSignatures (scripted PeerClient that owns the '
             'Recv channel and records every Send, table-driven ed25519 / RMNCrypto stubs, RMNHome stub). Configurations: 2..6 '
@@ -28,10 +31,16 @@ SPEC = {
             'context cancellation at a random parked point, at a select entry, or before the first select. Observable: result '
             'kind, returned (lane, root) list, signature order, every Send (kind, addressee, request id, chains), the '
             'attributed observations of the signature request (executable property: no node twice, F_home+1 distinct carriers per lane), and whether every VerifyReportSignatures call saw exactly the '
-            'report handed back. non-trivial = a ReportSignatureRequest was sent or the call succeeded; distinct by full input',
+            'report handed back. Sink C06_sweep: every single anomaly and every PAIR of anomalies (38 for observation responses: extra '
+            'lane of an unrequested / unobserved chain, duplicate / missing / no lanes, root nil / 5 / 31 / 33 bytes on the first or '
+            'last lane, nil sub-message at each nullable position, interval off by one, other onramp, conflicting / empty root, '
+            'wrong dest / offramp / digest, signature of another key / over other bytes / empty, wrong or missing payload, garbage, '
+            'unknown or foreign request id, unknown or other sender, answering twice; 14 for signature responses) applied to ONE '
+            'response of an otherwise honest run, on VERIF_N random configurations each. The ed25519 stub accepts a signature only '
+            'over sha256(prefix | sha256(observation bytes)) computed independently by the harness. non-trivial = a ReportSignatureRequest was sent or the call succeeded; distinct by full input',
     'trusted': [
         'ed25519 verification and RMNCrypto.VerifyReportSignatures are oracles (model: Section variables edv / vrs; harness: '
-        'table-driven stubs keyed by the signer)',
+        'stubs keyed by the signer; the ed25519 stub also binds the signed bytes to the independently computed preimage)',
         'protobuf unmarshalling: a response body is either garbage or a Response with request id and payload; a repeated '
         'message field never holds nil elements; absent sub-messages are nil',
         'PeerClient attributes every response to the stream (node) it arrived on',
